@@ -80,6 +80,19 @@ fn hstep(s: &HState, op: &HOp, a: &mut PartA) -> Result<Option<HState>, String> 
             let newest = n.top;
             let within = newest.saturating_sub(target) <= W;
             let want = model_at(&n.model, target);
+            // the same rollback on the history as it comes back from disk (commit + clear + reload replace the
+            // object by decode(encode(object))): same answer, and loud only where the live object is loud
+            if let Ok(mut reloaded) = H::decode_vec(&n.obj.encode_vec()) {
+                let r2 = catch_unwind(AssertUnwindSafe(|| {
+                    reloaded.reorg(target);
+                    reloaded.latest().map(|x| x.uint.to::<u64>())
+                }));
+                match r2 {
+                    Ok(got) if got != want => return Err(format!("reorg to block {} on the history as reloaded from its encoded form: latest() = {:?}, the value at the end of that block was {:?}", target, got, want)),
+                    Err(p) if within => return Err(format!("reorg to block {} within the window of the highest block ever written {} panicked on the history as reloaded from its encoded form: {}", target, newest, panic_text(&p))),
+                    _ => {}
+                }
+            }
             let mut obj = n.obj.clone();
             let r = catch_unwind(AssertUnwindSafe(|| {
                 obj.reorg(target);
@@ -725,7 +738,7 @@ pub fn run(tier: &str, seed: u64) -> i32 {
         "states": a.states + b.states, "transitions": a.transitions + b.transitions,
         // every state of part (b) is re-created on the real RocksDB-backed component by wipe + replay of its operation list
         "traces_validated_against_impl": b.transitions,
-        "samples": [json!({"part": "a", "ops": "Set(1) Set(2) Unset Next Skip(W-1) Reorg(1..W+2) from 7 start states"}), json!({"part": "b", "paths": b.sample})],
+        "samples": [json!({"part": "a", "ops": "Set(1) Set(2) Unset Next Skip(W-1) Reorg(1..W+2; on the live object and on decode(encode(object))) from 7 start states"}), json!({"part": "b", "paths": b.sample})],
         "part_a": {"component": "BlockHistoryCacheData<U64ED> (the real object, BFS over (encoded bytes, block, model))", "states": a.states, "transitions": a.transitions, "depth_completed": a.depth, "depth_bound": da, "complete": a.complete,
                    "reorgs_within_window_checked": a.reorg_within, "deeper_reorgs_loud": a.reorg_deeper_loud, "deeper_reorgs_right": a.reorg_deeper_right, "max_versions_seen": a.max_versions},
         "part_b": {"component": "BlockCachedDatabase<U64ED,U64ED> + BlockDatabase<U64ED> on RocksDB", "states": b.states, "paths_executed": b.transitions, "depth_completed": b.depth, "depth_bound": db, "complete": b.complete, "reorgs": b.reorgs,
